@@ -113,7 +113,8 @@ def run_search(cid, tier, base_seed, budget, workers):
     t0 = time.time()
     deadline = t0 + wall
     agg = _empty_agg()
-    jobs = [(cid, base_seed, tier, s, min(s + CHUNK, n_runs), deadline) for s in range(0, n_runs, CHUNK)]
+    chunk = max(1, min(CHUNK, n_runs // (workers * 4)))
+    jobs = [(cid, base_seed, tier, s, min(s + chunk, n_runs), deadline) for s in range(0, n_runs, chunk)]
     ctx = multiprocessing.get_context("fork")
     with ProcessPoolExecutor(max_workers=workers, mp_context=ctx) as pool:
         futs = [pool.submit(_worker, j) for j in jobs]
